@@ -404,10 +404,8 @@ func ParseDemonRegisterRequest(AgentID int, Parser *parser.Parser, ExternalIP st
 			logger.Debug(fmt.Sprintf("Parsed DemonID: %x", DemonID))
 
 			if AgentID != DemonID {
-				if AgentID != 0 {
-					logger.Debug("Failed to decrypt agent init request")
-					return nil
-				}
+				logger.Debug("Failed to decrypt agent init request")
+				return nil
 			} else {
 				logger.Debug(fmt.Sprintf("AgentID (%x) == DemonID (%x)\n", AgentID, DemonID))
 			}
